@@ -52,7 +52,13 @@ func vfValidService() Service {
 	return Service{Constructor: &c}
 }
 
-func vfWhole(i Input) error { return NewDefaultValidator("").Validate(i) }
+func vfWhole(i Input) error {
+	err := NewDefaultValidator("").Validate(i)
+	if err != nil {
+		vfObserve("diagnostics", err.Error())
+	}
+	return err
+}
 
 func VF_C11_meta_pkg() {
 	s := vfStr("pkg", vfN(6, 10))
